@@ -292,7 +292,30 @@ def case_explore(p):
         h.close()
 
 
-CASES = {"explore": case_explore}
+def _work_bcast(item, seed, tier):
+    """BLE encrypted broadcasts are incoming encrypted messages too (nonce = state number, under the broadcast key): each is accepted at most
+    once and only in order - also where the state number is about to roll over.  The history search of C18 from bases next to the roll-over,
+    over genuine next / repeated / long-recorded broadcasts; only the replay clause is judged here."""
+    from vt.props import c18
+
+    acc = core.Acc()
+    sub = c18._bfs(item, seed, tier)
+    keep = lambda sig: "stale" in sig or "accepted-though" in sig or "scanner-callback-raises" in sig  # noqa: E731
+    sub.viol = [v for v in sub.viol if keep(v["signature"])]
+    for k in list(sub.viol_count):
+        if not keep(k):
+            del sub.viol_count[k]
+    acc.merge(sub)
+    return acc
+
+
+def case_history(p):
+    from vt.props import c18
+
+    return [(s_, d) for s_, d in c18.case_history(p) if "stale" in s_ or "accepted-though" in s_ or "scanner-callback-raises" in s_]
+
+
+CASES = {"explore": case_explore, "history": case_history}
 try:
     from vt.props import c06_coap as _cc
 
@@ -338,6 +361,9 @@ def run(ctx):
 
     hists = [h for n_ in range(1, (4 if quick else 5) + 1) for h in itertools.product(c06_coap.PAIRING_SYMS, repeat=n_) if any(x in ("endpoint-change", "port-change", "same-endpoint") for x in h)]
     ctx.pmap(_work_pairing, [hists[i : i + 30] for i in range(0, len(hists), 30)])
+    BC = ["+1", "+2", "+50", "same", "-1", "old:1", "old:2", "old:40", "old:98", "regular-adv"]
+    ctx.pmap(_work_bcast, [(b, 2 if quick else 3, BC, f) for b in ([65437, 65500, 65534, 65535, 300] if quick else [1, 300, 65436, 65437, 65438, 65500, 65533, 65534, 65535]) for f in BC])
+    ctx.bounds.update(ble_broadcast_histories=dict(alphabet=BC, depth=2 if quick else 3))
     ctx.bounds.update(coap_pairing_histories=len(hists), coap_pairing_alphabet=c06_coap.PAIRING_SYMS)
     ctx.exhaustive = not ctx.acc.capped
     for s in ("req1", "req2", "req", "deliver", "replay-first", "replay", "step", "drop", "future", "corrupt", "cancel", "timer", "ev", "ev-replay", "ev-corrupt", "ev-odd", "ev-replay-last", "deliver-1.5"):
